@@ -63,12 +63,21 @@ fn digest(status: &str, out: &[u8], err: &[u8]) -> String {
     format!("{h:016x}")
 }
 
-const SYNTHETIC: [(&str, &str); 6] = [
+const SYNTHETIC: [(&str, &str); 14] = [
     ("three-coverage-errors", "begin\n  let B = data | +F : Unit | +T : Unit end that\n  let f : Thk (B -> Ret Unit) = { fn v => match v | +T(_) => ret () end } that\n  let g : Thk (B -> Ret Unit) = { fn v => match v | +F(_) => ret () end } that\n  let h : Thk (B * B -> Ret Unit) = { fn v => match v | (+F(_), +T(_)) => ret () end } that\n  ret ()\nend\n"),
     ("duplicate-binders-in-one-pattern", "begin\n  let a = () that\n  let b = () that\n  let (a, b) = ((), ()) that\n  ret ()\nend\n"),
     ("many-unsolved-holes", "begin\n  let f = { fn x => fn y => fn z => ret (x, y, z) } that\n  let g = { fn p => fn q => ret p } that\n  ret ()\nend\n"),
     ("two-unbound", "begin\n  let f : Thk (Ret Unit) = { do x <- ! nope1; ! nope2 x } that\n  ret ()\nend\n"),
     ("recursive-types-block", "begin\n  def A : VType = data | +A1 : B | +A0 : Unit end that\n  def B : VType = data | +B1 : A | +B2 : C end that\n  def C : VType = data | +C1 : A | +C0 : Unit end that\n  let x : A = +A1(+B2(+C0())) that\n  ret x\nend\n"),
+    // several independent errors of one kind each: which one is reported must not depend on the process
+    ("recursive-type-group-every-member-ill-kinded", "begin\n  def Ea : VType = data | +Za : Unit | +Sa : Eb Unit end that\n  def Eb : VType = data | +Sb : Ec Unit end that\n  def Ec : VType = data | +Sc : Ed Unit end that\n  def Ed : VType = data | +Sd : Ea Unit end that\n  ret ()\nend\n"),
+    ("recursive-type-group-every-member-unbound", "begin\n  def Ea : VType = data | +Za : Unit | +Sa : Eb * Nope1 end that\n  def Eb : VType = data | +Sb : Ec * Nope2 end that\n  def Ec : VType = data | +Sc : Ea * Nope3 end that\n  ret ()\nend\n"),
+    ("recursive-codata-group-every-member-ill-kinded", "begin\n  def Ca : CType = codata | .a : Cb Unit end that\n  def Cb : CType = codata | .b : Cc Unit end that\n  def Cc : CType = codata | .c : Ca Unit end that\n  ret ()\nend\n"),
+    ("several-ill-typed-definitions", "begin\n  let B = data | +F : Unit | +T : Unit end that\n  let a : B = () that\n  let b : Unit = +T() that\n  let c : B * B = (+T(), ()) that\n  let d : Thk (Ret B) = { ret () } that\n  ret ()\nend\n"),
+    ("several-ill-typed-arms", "begin\n  let B = data | +F : Unit | +T : Unit | +M : Unit end that\n  let f : Thk (B -> Ret B) = { fn v => match v | +F(_) => ret () | +T(_) => ret ((), ()) | +M(_) => ret +Nope() end } that\n  ret ()\nend\n"),
+    ("recursive-value-group-every-member-ill-typed", "begin\n  def fix fa : Thk (Unit -> Ret Unit) = { fn u => do x <- ! fb u; ret (x, x) } that\n  def fix fb : Thk (Unit -> Ret Unit) = { fn u => do x <- ! fc u; ret (x, x) } that\n  def fix fc : Thk (Unit -> Ret Unit) = { fn u => do x <- ! fa u; ret (x, x) } that\n  ret ()\nend\n"),
+    ("several-unknown-constructors", "begin\n  let B = data | +F : Unit | +T : Unit end that\n  let a : B = +X1() that\n  let b : B = +X2() that\n  let c : B = +X3() that\n  ret ()\nend\n"),
+    ("several-bad-comatches", "begin\n  let O = codata | .p : Ret Unit | .q : Ret Unit end that\n  let a : Thk O = { comatch | .p => ret () end } that\n  let b : Thk O = { comatch | .q => ret () end } that\n  let c : Thk O = { comatch | .p => ret () | .q => ret () | .r => ret () end } that\n  ret ()\nend\n"),
     ("independent-definitions", "begin\n  let z9 = () that\n  let a1 = () that\n  let m5 = () that\n  let q2 = (z9, a1) that\n  let b7 = (m5, q2) that\n  ret (b7, q2, a1)\nend\n"),
 ];
 
